@@ -198,7 +198,7 @@ func genC14(g *Gen, tier string, idx int) *wire.Scenario {
 	first := Pick(g, []string{"complete", "menu-complete", "menu-complete", "menu-complete-backward"})
 	sc.Script = append(sc.Script, tok(g.Cat.ShortSeqFor(km, first), first))
 	for i := 0; i < g.Range(0, 6); i++ {
-		sc.Script = append(sc.Script, tok(Pick(g, []string{"\t", "\t", "\x1b[Z", "\x1b[B", "\x1b[A", "\x1b[C", "\x1b[D"}), "menu-key"))
+		sc.Script = append(sc.Script, tok(Pick(g, []string{"\t", "\t", "\x1b[Z", "\x1b[B", "\x1b[A", "\x1b[C", "\x1b[D", "\x1b[1;5B", "\x1b[1;5A"}), "menu-key"))
 	}
 	switch g.N(4) {
 	case 0:
@@ -303,6 +303,12 @@ func execC14(x *Ctx, sc *wire.Scenario) *wire.Result {
 			continue
 		}
 		line := w.Line
+		if prev := waitAfter(out, i-1); line == xx.B && w.Local == "menu-select" && prev != nil && prev.Kind == "main" && prev.Local == "menu-select" &&
+			prev.Line != xx.B && i-1 > xx.Setup && sc.Script[i-1].Cmd == "menu-key" && !cands[typed] {
+			// a key of the open menu moves the selection: it does not take the inserted candidate out of the line
+			return violation(res, "MISMATCH", "C14.word-becomes-candidate", "menu-key-removes-the-inserted-candidate:"+ascii,
+				fmt.Sprintf("with the menu open and %q in the line, the menu key %q left the bare word again (buffer %q), menu still open", prev.Line, string(sc.Script[i-1].B), line))
+		}
 		if line == xx.B {
 			if w.Local != "menu-select" && w.Pos != xx.C {
 				break // the cursor was moved with no menu open: not this completion any more
@@ -410,6 +416,7 @@ func genC15(g *Gen, tier string, idx int) *wire.Scenario {
 	if g.P(12) {
 		spec.List = true // the completer asks for a list
 	}
+	interleaved := len(tags) > 1 && g.P(40)
 	seen := map[string]bool{}
 	x := c15X{Dir: Pick(g, []string{"forward", "forward", "backward", "mixed"})}
 	if g.P(40) {
@@ -437,6 +444,9 @@ func genC15(g *Gen, tier string, idx int) *wire.Scenario {
 		}
 		seen[v] = true
 		c := wire.Cand{Value: v, Tag: tags[len(spec.Cands)*len(tags)/n]}
+		if interleaved {
+			c.Tag = Pick(g, tags) // a completer that does not return its values tag by tag
+		}
 		if described {
 			c.Desc = fmt.Sprintf("description %d", len(spec.Cands))
 			if aliases && len(spec.Cands) > 0 && g.P(40) && spec.Cands[len(spec.Cands)-1].Tag == c.Tag {
